@@ -123,7 +123,7 @@ CLAIMS = {
             "x boundary catalogue; each case runs through the real pipeline and is compared (exact, or within 1e-9 where the result is not a dyadic).",
             "libm accuracy beyond exact cases is Unpinned; TLC's 32-bit integers limit operands to the catalogue.",
             "TLA+ spec + TLC-exported boundary cases replayed on the real function descriptors", "DESIGN.md 6/C13"),
-    "C01": ("model_checking",
+    "C01": ("exploration",
             "Relational.tla gives the batch meaning of single-source SELECT (WHERE with three-valued logic, projections, DISTINCT, ORDER BY on output columns with "
             "NULL first and bytewise strings, LIMIT, subqueries in FROM, WITH) and renders the SQL text itself. TLC draws (query, table) pairs under its seed and "
             "computes the expected result as a sequence of tie groups; each query runs through the real parser, typechecker, optimiser, materialiser and "
@@ -138,7 +138,7 @@ CLAIMS = {
             "Three defects found were repaired.",
             "Sampled queries; exhaustive small schedules. Trusted: engine glue, gate scheduler.", "TLA+ relational spec + TLC interleaving model, replayed on the real pipeline and nodes",
             "DESIGN.md 6/C02"),
-    "C03": ("model_checking",
+    "C03": ("exploration",
             "Relational.tla grouping layer (one row per present key incl. NULL, aggregates over non-NULL inputs, NULL when none, truncating AVG, ascending "
             "array_agg, DISTINCT variants) for TLC-generated grouping queries, also over retracting sources (grouping subqueries with COUNTING triggers), run "
             "through the real pipeline with both optimiser settings; the aggregates themselves are covered path-exhaustively by C14 and both group-by nodes by C16.",
@@ -157,7 +157,7 @@ CLAIMS = {
             "ValueInType(value, reported type) on every observation.",
             "File schemas are covered by C24.", "TLA+ type denotation + TLC check of observed (type, value) pairs from the real pipeline",
             "DESIGN.md 6/C08"),
-    "C05": ("model_checking",
+    "C05": ("exploration",
             "Relational.tla family 'limit' enumerates every table of <= 4 rows over 3 distinct rows (duplicates) x LIMIT 0..4 x 4 ORDER BY shapes x {top level, "
             "subquery in FROM} with the expected tie groups; the in-process engine runs the family with both optimiser settings, a second family nests ORDER BY "
             "+ LIMIT over retracting sources (groupings with COUNTING triggers), and the real binary prints sampled cases in live_table, batch_table, csv, json "
@@ -205,7 +205,7 @@ CLAIMS = {
             "(exact number tokens, RFC 4180 on bytes) compare with the view. One defect repaired (invalid JSON escapes), one recorded (NaN/Inf).",
             "Times/durations only required to be strings; two object shapes never meet in one union. Trusted: Python json, the CSV state machine.",
             "spec-generated universe (TLA+ views exported by TLC) replayed through the real formatters and CLI with decoding oracles", "DESIGN.md 6/C25"),
-    "C24": ("model_checking",
+    "C24": ("exploration",
             "Schema.tla: a CSV cell is a text with the set of its readings (Int / Float / Boolean / Time / String / NULL values it denotes), a JSON value an abstract "
             "document; Rep(cell, T) says the cell has a reading in the reported type T, Match(cell, v, T) that the produced value is such a reading. SchemaCases.tla "
             "generates files under the TLC seed (per column the cells cycled through the 100-row inference preview and the cells after it); the real datasources run "
@@ -222,7 +222,7 @@ CLAIMS = {
             "defects were repaired; two vitess-level ones are recorded.",
             "Statements the parser rejects are outside the property. Trusted: the reflective dump.",
             "spec-generated grammar universe (TLA+ trees rendered by TLC) replayed through the real parser/printer with a tree-equality oracle", "DESIGN.md 6/C30"),
-    "C28": ("model_checking",
+    "C28": ("exploration",
             "PluginVersions.tla defines semantic-version precedence (prereleases, multi-digit components), constraint satisfaction (none, *, =, >=, >, <, <=, ^, ~, with the "
             "library's prerelease rule), Discover, Resolve (highest installed version that satisfies) and Select (highest matching manifest version; highest release "
             "without a constraint). PluginCases.tla generates trees, configurations, manifests and the expected outcome under the TLC seed. The real code is observed "
